@@ -658,6 +658,141 @@ Proof.
   rewrite E, andb_false_r; reflexivity.
 Qed.
 
+(* ------------------------------------------------------------------ a waiter at a full gate *)
+
+(* A render waits and the gate is full (callers that arrived together beyond the
+   free slots are in this position).  It cannot enter and cannot leave.  When its
+   context ends nothing changes for the others, it still cannot enter, and the
+   one way on is the error: it goes, the renders in flight stay exactly as they
+   are - no slot has to be handed back first. *)
+Theorem gate_full_gate_cancel n evs s r :
+  reach n evs = Some s -> In r (waiting s) -> cap s <= length (inflight s) ->
+  gate_step s (Enter r) = None /\ (forall o, gate_step s (Leave r o) = None) /\
+  exists s1, gate_step s (CtxEnd r) = Some s1 /\
+    inflight s1 = inflight s /\ waiting s1 = waiting s /\ cap s1 = cap s /\
+    gate_step s1 (Enter r) = None /\
+    exists s2, gate_step s1 (Cancel r) = Some s2 /\
+      inflight s2 = inflight s /\ waiting s2 = del r (waiting s) /\ cap s2 = cap s.
+Proof.
+  intros H Hw Hfull. pose proof (reach_inv _ _ _ H) as I.
+  destruct (waiting_not_entered _ _ _ _ I Hw) as [Hs [Hne _]].
+  assert (Hu : memr r (used s) = true) by (apply memr_In; rewrite (i_used _ _ _ I); exact Hs).
+  assert (Hni : memr r (inflight s) = false).
+  { apply memr_false; intros X; apply (inflight_entered _ _ _ _ I) in X; tauto. }
+  assert (Hmw : memr r (waiting s) = true) by (apply memr_In; exact Hw).
+  assert (E : (length (inflight s) <? cap s) = false) by (apply Nat.ltb_ge; exact Hfull).
+  split; [apply enter_needs_slot; exact Hfull|].
+  split; [intros o; simpl; rewrite Hni; reflexivity|].
+  simpl. rewrite Hu. eexists; split; [reflexivity|]; simpl.
+  split; [reflexivity|]. split; [reflexivity|]. split; [reflexivity|].
+  rewrite Hmw, E; simpl. split; [reflexivity|].
+  unfold memr at 1; simpl; rewrite Nat.eqb_refl; simpl.
+  eexists; split; [reflexivity|]; simpl; auto.
+Qed.
+
+(* ------------------------------------------------------------------ rounds: a finished history leaves a new gate *)
+
+Lemma eqb_add d r a : (d + r =? d + a) = (r =? a).
+Proof.
+  destruct (Nat.eqb_spec r a) as [->|Hne]; [apply Nat.eqb_refl|apply Nat.eqb_neq; lia].
+Qed.
+
+Lemma memr_cons r x l : memr r (x :: l) = (r =? x) || memr r l.
+Proof. reflexivity. Qed.
+
+Lemma memr_shift d r l : memr (d + r) (map (Nat.add d) l) = memr r l.
+Proof.
+  induction l as [|a l IH]; [reflexivity|].
+  simpl map. rewrite !memr_cons, eqb_add, IH; reflexivity.
+Qed.
+
+Lemma del_shift d r l : del (d + r) (map (Nat.add d) l) = map (Nat.add d) (del r l).
+Proof.
+  unfold del; induction l as [|a l IH]; [reflexivity|].
+  simpl. rewrite eqb_add. destruct (r =? a); simpl; rewrite IH; reflexivity.
+Qed.
+
+(* the simulation: same limit, same sets up to the shift, and the two gates know
+   the same about the names that can still occur (the shifted ones) *)
+Definition Sim (d : nat) (a b : gate_state) : Prop :=
+  cap b = cap a /\
+  inflight b = map (Nat.add d) (inflight a) /\
+  waiting b = map (Nat.add d) (waiting a) /\
+  (forall r, memr (d + r) (used b) = memr r (used a)) /\
+  (forall r, memr (d + r) (ended b) = memr r (ended a)).
+
+Definition SimO (d : nat) (a b : option gate_state) : Prop :=
+  match a, b with
+  | Some a, Some b => Sim d a b
+  | None, None => True
+  | _, _ => False
+  end.
+
+Lemma sim_step d a b e : Sim d a b -> SimO d (gate_step a e) (gate_step b (shift d e)).
+Proof.
+  intros (Hc & Hi & Hw & Hu & He).
+  destruct e as [r o|r|r|r o|r]; simpl.
+  - (* Start *)
+    rewrite Hu, Hc. destruct (memr r (used a)); [exact I|].
+    destruct (cap a =? 0); unfold SimO, Sim; cbn [cap inflight waiting used ended].
+    + split; [reflexivity|]. split; [rewrite Hi, map_app; reflexivity|]. split; [exact Hw|].
+      split; [intros x; rewrite !memr_cons, eqb_add, Hu; reflexivity|].
+      intros x; destruct o; [rewrite !memr_cons, eqb_add, He; reflexivity|apply He].
+    + split; [reflexivity|]. split; [exact Hi|]. split; [rewrite Hw, map_app; reflexivity|].
+      split; [intros x; rewrite !memr_cons, eqb_add, Hu; reflexivity|].
+      intros x; destruct o; [rewrite !memr_cons, eqb_add, He; reflexivity|apply He].
+  - (* CtxEnd *)
+    rewrite Hu. destruct (memr r (used a)); [|exact I].
+    unfold SimO, Sim; cbn [cap inflight waiting used ended].
+    split; [exact Hc|]. split; [exact Hi|]. split; [exact Hw|]. split; [exact Hu|].
+    intros x; rewrite !memr_cons, eqb_add, He; reflexivity.
+  - (* Enter *)
+    rewrite Hw, memr_shift, Hi, map_length, Hc. unfold rid in *.
+    match goal with |- SimO _ (if ?c then _ else _) _ => destruct c end; [|exact I].
+    unfold SimO, Sim; cbn [cap inflight waiting used ended].
+    split; [reflexivity|]. split; [rewrite map_app; reflexivity|].
+    split; [apply del_shift|]. split; [exact Hu|exact He].
+  - (* Leave *)
+    rewrite Hi, memr_shift. destruct (memr r (inflight a)); [|exact I].
+    unfold SimO, Sim; cbn [cap inflight waiting used ended].
+    split; [exact Hc|]. split; [apply del_shift|]. split; [exact Hw|]. split; [exact Hu|exact He].
+  - (* Cancel *)
+    rewrite Hw, memr_shift, He.
+    match goal with |- SimO _ (if ?c then _ else _) _ => destruct c end; [|exact I].
+    unfold SimO, Sim; cbn [cap inflight waiting used ended].
+    split; [exact Hc|]. split; [exact Hi|]. split; [apply del_shift|]. split; [exact Hu|exact He].
+Qed.
+
+Lemma sim_run d evs : forall a b,
+  SimO d a b -> SimO d (run a evs) (run b (map (shift d) evs)).
+Proof.
+  induction evs as [|e evs IH]; intros a b H; [exact H|].
+  simpl. apply IH. destruct a as [a|], b as [b|]; simpl in *; try contradiction; [|exact I].
+  apply sim_step; exact H.
+Qed.
+
+(* After ANY accepted history in which every started render has left or got the
+   context error, ANY further history - its renders named past all names used so
+   far - is accepted exactly when a new gate with the same limit accepts it, and
+   then the two gates show the same renders in flight and waiting. *)
+Theorem gate_round_reset n evs s d evs' :
+  reach n evs = Some s -> all_started_done evs ->
+  (forall r, In r (started evs) -> r < d) ->
+  same_upto d (reach n evs') (run (Some s) (map (shift d) evs')).
+Proof.
+  intros H Hdone Hd. pose proof (reach_inv _ _ _ H) as Iv.
+  destruct (gate_no_leak _ _ _ H) as (_ & _ & Hq). destruct (Hq Hdone) as (Hi & Hw & _).
+  assert (S0 : SimO d (Some (gate_init n)) (Some s)).
+  { simpl. split; [exact (i_cap _ _ _ Iv)|]. split; [exact Hi|]. split; [exact Hw|]. split.
+    - intros r; simpl. apply memr_false. rewrite (i_used _ _ _ Iv). intros X. apply Hd in X. lia.
+    - intros r; simpl. apply memr_false. rewrite (i_ended _ _ _ Iv). intros X.
+      apply (i_ended_sub _ _ _ Iv), Hd in X. lia. }
+  pose proof (sim_run d evs' _ _ S0) as R. unfold reach.
+  destruct (run (Some (gate_init n)) evs') as [a|], (run (Some s) (map (shift d) evs')) as [b|];
+    simpl in *; try contradiction; [|exact I].
+  destruct R as (Hc & Hi' & Hw' & _); auto.
+Qed.
+
 (* ------------------------------------------------------------------ non-vacuity *)
 
 (* limit 2, five renders; 3 is cancelled while waiting, 1 panics, 4 fails in a
@@ -751,3 +886,31 @@ Example nv_progress :
   exists s, reach 2 [Start 1 false; Start 2 false; Start 3 false; Enter 1] = Some s /\
             waiting s <> [] /\ length (inflight s) < cap s.
 Proof. eexists; split; [vm_compute; reflexivity|]; simpl; split; [discriminate|lia]. Qed.
+
+(* a round after a finished history: limit 2, [nv_trace] has used the names 1..5;
+   three callers named 1, 2, 3 moved past them (7, 8, 9) arrive together, two
+   get in, the context of the third ends while the gate is full and it gets the
+   error - accepted after [nv_trace] with the same sets as on a new gate *)
+Definition nv_round : list gate_event :=
+  [Start 1 false; Start 2 false; Start 3 false; Enter 3; Enter 1; CtxEnd 2; Cancel 2;
+   Leave 1 o_ok; Leave 3 o_panic].
+
+Example nv_round_new :
+  reach 2 (firstn 5 nv_round) = Some (mk_gate 2 [3; 1] [2] [3; 2; 1] []) /\
+  reach 2 nv_round = Some (mk_gate 2 [] [] [3; 2; 1] [2]).
+Proof. vm_compute. split; reflexivity. Qed.
+
+Example nv_round_after :
+  exists s, reach 2 nv_trace = Some s /\ all_started_doneb nv_trace = true /\
+    run (Some s) (map (shift 6) (firstn 5 nv_round)) =
+      Some (mk_gate 2 [9; 7] [8] [9; 8; 7; 5; 4; 3; 2; 1] [3]).
+Proof. eexists; vm_compute; repeat split; reflexivity. Qed.
+
+(* the same names again are rejected: the shift is needed *)
+Example nv_round_reuse : exists s, reach 2 nv_trace = Some s /\ run (Some s) nv_round = None.
+Proof. eexists; vm_compute; split; reflexivity. Qed.
+
+(* the hypotheses of gate_full_gate_cancel are satisfiable *)
+Example nv_full_gate_hyps :
+  exists s, reach 2 (firstn 5 nv_round) = Some s /\ In 2 (waiting s) /\ cap s <= length (inflight s).
+Proof. eexists; split; [vm_compute; reflexivity|]. simpl; split; [auto|lia]. Qed.
